@@ -250,6 +250,18 @@ fn main() {
         }
     }
 
+    // 1c. a value of every type WITH a TTL on one key next to a value of every type on the other key (three seeding
+    // ops): a two-key command that fails on the second key must leave the first key's deadline alone too
+    let mut ttl_pair_states = 0usize;
+    for (a, b) in [("k1", "k2"), ("k2", "k1")] {
+        for sa in alpha.iter().filter(|x| x[1] == a.as_bytes() && x[0] != b"EXPIRE") {
+            for sb in alpha.iter().filter(|x| x[1] == b.as_bytes() && x[0] != b"EXPIRE") {
+                state_list.push(vec![sa.clone(), resp::line(&format!("EXPIRE {a} 100")), sb.clone()]);
+                ttl_pair_states += 1;
+            }
+        }
+    }
+
     // 2. command instances
     let instances = cmdgen::all_instances(if args.tier == Tier::Thorough { Profile::Rich } else { Profile::Small });
 
@@ -301,6 +313,7 @@ fn main() {
         "rule": "every pair (keyspace state reachable in <=2 seeding ops over both keys and all five types, with/without TTL, integers at i64 limits) x (command instance from the template product over the full command set incl. stubs, two-key commands and single-call EVAL scripts); a pair is non-trivial (counted in distinct_nontrivial) when the command parsed and replied with an error or is classified is_read_only(), i.e. the oracle 'visible keyspace unchanged' was actually evaluated; all pairs are distinct by construction",
         "states": state_list.len(),
         "states_with_a_configuration_parameter_set_to_1": config_states,
+        "states_with_a_ttl_value_on_one_key_and_a_value_on_the_other": ttl_pair_states,
         "command_instances": instances.len(),
         "pairs": state_list.len() as u64 * instances.len() as u64,
         "pairs_rejected_by_parser": parse_err,
